@@ -42,6 +42,7 @@ type Exec struct {
 	params     map[string]Val // contract param names -> entry values
 	overflw    string
 	siteSeq    map[string]int
+	sitePos    map[string]map[token.Pos]int
 	topTargets []modTarget
 	loopIns    []*State
 	topReturns []retEdge
